@@ -178,6 +178,39 @@ func runC01(r *Run) {
 			r.Sample(m)
 		}
 	})
+	// JSON documents as encoding/json decodes them: the implementation against the documented interpreter jeval
+	// (coq/JsonEval.v, proved equal to the model's Evaluate on such documents) and against the model itself
+	nj := 1500
+	if r.Tier == "thorough" {
+		nj = 80000
+	}
+	for i := 0; i < nj; i++ {
+		rng = NewRng(mix(r.Seed, strHash("C01json"), uint64(i)))
+		text := "{" + `"a":` + genJSONText(3) + `,"items":` + genJSONText(3) + `,"m":` + genJSONText(2) + "}"
+		if rng.Pct(10) {
+			text = genJSONText(3)
+		}
+		d, err := decodeJSON(text, rng.Bool())
+		if err != nil {
+			r.Count("generator:bad-json")
+			continue
+		}
+		for k := 0; k < 2; k++ {
+			e := genExpr(d, "bexpr", rng.Intn(3), "", reflect.Value{})
+			if rng.Pct(30) {
+				_, e = genNestedQuantOn(d)
+			}
+			c := evalCase{expr: e, d: d, tag: "bexpr"}
+			if !c.parse() {
+				r.Count("generator:unparseable")
+				continue
+			}
+			o := addEval(r, &c, "json-documents")
+			m := c.desc()
+			m["json"] = truncate(text, 300)
+			r.Model(jevalCmd(&c), classOf(o), m)
+		}
+	}
 	// nested quantifiers with re-used binder names over nested collections (long lists included)
 	nn := 600
 	if r.Tier == "thorough" {
@@ -650,4 +683,14 @@ func genNestedQuant() (interface{}, string) {
 		e = fmt.Sprintf("%s Items as Items, v { v == 3 } or %s Groups as %s { %s.Members.10 == bob or ( %s %s.Members as %s { %s } ) }", q(), q(), outer, outer, q(), outer, ib, leaf(iv))
 	}
 	return d, e
+}
+
+// genNestedQuantOn: a two-level quantified expression over whatever collections the JSON document has under "items" / "m".
+func genNestedQuantOn(d interface{}) (interface{}, string) {
+	q := func() string { return pick(rng, []string{"any", "all"}) }
+	outer := pick(rng, []string{"items", "m", "a"})
+	bind := pick(rng, []string{"x", "i, x", "_, x", "k, x"})
+	inner := pick(rng, []string{"x", "x.tags", "x.items", "x.a"})
+	leaf := pick(rng, []string{"y == a", "y != 1", "y is empty", "1 in y", "y.k == b", "y matches `^a`", "x.n == 1 or y == foo"})
+	return d, fmt.Sprintf("%s %s as %s { %s %s as y { %s } }", q(), outer, bind, q(), inner, leaf)
 }
